@@ -56,7 +56,12 @@ type RecBackend struct {
 	// AckMode for Publish: "" sync (memory backend), "late" (ack withheld until
 	// ReleaseAcks), "goroutine" (ack from another goroutine), "never".
 	AckMode string
-	held    []broker.Ack
+	// KeepAliveFor overrides the maximum keep alive of clients with the given
+	// id (applied in Setup, as the Backend contract allows).
+	KeepAliveFor map[string]time.Duration
+	// AckOnlyClient, when set, restricts AckMode to publishes of that client id.
+	AckOnlyClient string
+	held          []broker.Ack
 }
 
 func (r *RecBackend) rec(c Call) {
@@ -68,14 +73,27 @@ func (r *RecBackend) rec(c Call) {
 func (r *RecBackend) fail(hook string) bool {
 	r.mu.Lock()
 	defer r.mu.Unlock()
-	if r.FailHook == nil {
-		return false
-	}
 	if r.hookN == nil {
 		r.hookN = map[string]int{}
 	}
 	r.hookN[hook]++
+	if r.FailHook == nil {
+		return false
+	}
 	return r.FailHook[hook] == r.hookN[hook]
+}
+
+// FailNext makes the next call of the hook fail with ErrHook.
+func (r *RecBackend) FailNext(hook string) {
+	r.mu.Lock()
+	defer r.mu.Unlock()
+	if r.FailHook == nil {
+		r.FailHook = map[string]int{}
+	}
+	if r.hookN == nil {
+		r.hookN = map[string]int{}
+	}
+	r.FailHook[hook] = r.hookN[hook] + 1
 }
 
 // HookCount returns how often a hook was entered.
@@ -119,6 +137,13 @@ func (r *RecBackend) SetAckMode(m string) {
 	r.mu.Unlock()
 }
 
+// SetAckModeFor changes the ack mode for publishes of one client id only.
+func (r *RecBackend) SetAckModeFor(m, id string) {
+	r.mu.Lock()
+	r.AckMode, r.AckOnlyClient = m, id
+	r.mu.Unlock()
+}
+
 // ReleaseAcks calls every withheld ack.
 func (r *RecBackend) ReleaseAcks() {
 	r.mu.Lock()
@@ -159,6 +184,9 @@ func (r *RecBackend) Setup(c *broker.Client, id string, clean bool) (broker.Sess
 		return nil, false, ErrHook
 	}
 	s, resumed, err := r.MemoryBackend.Setup(c, id, clean)
+	if d, ok := r.KeepAliveFor[id]; ok && err == nil {
+		c.MaximumKeepAlive = d
+	}
 	seq = r.EL.Add(memconn.Event{Actor: "backend", Op: "Setup-return", Note: fmt.Sprintf("%s resumed=%v err=%v", id, resumed, err)})
 	r.rec(Call{Seq: seq, Hook: "Setup", Client: c, ID: id, Clean: clean, Err: err, Resumed: resumed, Done: true})
 	return s, resumed, err
@@ -209,6 +237,9 @@ func (r *RecBackend) Publish(c *broker.Client, msg *packet.Message, ack broker.A
 		}
 		r.mu.Lock()
 		mode := r.AckMode
+		if r.AckOnlyClient != "" && r.AckOnlyClient != c.ID() {
+			mode = ""
+		}
 		r.mu.Unlock()
 		switch mode {
 		case "late":
